@@ -20,6 +20,7 @@ import (
 	"strings"
 
 	"github.com/antlr4-go/antlr/v4"
+	"github.com/iancoleman/strcase"
 	gen "github.com/xinchentechnote/fin-protoc/internal/grammar"
 	"github.com/xinchentechnote/fin-protoc/internal/model"
 	"github.com/xinchentechnote/fin-protoc/internal/parser"
@@ -29,6 +30,8 @@ type request struct {
 	Op    string   `json:"op"`
 	Text  string   `json:"text"`
 	Langs []string `json:"langs"`
+	// Idents are the identifiers "names" converts with the strcase library
+	Idents []string `json:"idents"`
 	// AllowCyclic lets "gen" run on models whose packet reference graph has a cycle
 	// (the generators may then overflow the stack, which cannot be recovered).
 	AllowCyclic bool `json:"allow_cyclic"`
@@ -93,6 +96,12 @@ func handle(req *request) (resp obj) {
 		return opFormat(req.Text)
 	case "tables":
 		return opTables()
+	case "names":
+		out := obj{}
+		for _, id := range req.Idents {
+			out[id] = []string{strcase.ToCamel(id), strcase.ToLowerCamel(id), strcase.ToSnake(id)}
+		}
+		return obj{"names": out}
 	}
 	return obj{"error": "unknown op " + req.Op}
 }
